@@ -243,7 +243,12 @@ func (s *Session) authorizationHandler(cmd string, args []string) {
 
 	case "USER":
 		if len(args) > 0 {
-			s.user = args[0]
+			name, err := s.mailboxFor(args[0])
+			if err != nil {
+				s.send("-ERR Invalid username")
+				return
+			}
+			s.user = name
 			s.send(fmt.Sprintf("+OK Hello %v, welcome to Inbucket", s.user))
 		} else {
 			s.send("-ERR Missing username argument")
@@ -262,7 +267,12 @@ func (s *Session) authorizationHandler(cmd string, args []string) {
 			s.send("-ERR APOP requires two arguments")
 			return
 		}
-		s.user = args[0]
+		name, err := s.mailboxFor(args[0])
+		if err != nil {
+			s.send("-ERR Invalid username")
+			return
+		}
+		s.user = name
 		s.loadMailbox()
 		s.send(fmt.Sprintf("+OK Found %v messages for %v", s.msgCount, s.user))
 		s.enterState(TRANSACTION)
@@ -554,6 +564,14 @@ func (s *Session) sendMessageTop(msg storage.Message, lineCount int) {
 		return
 	}
 	s.send(".")
+}
+
+// mailboxFor maps a login name (a mailbox name or an email address) to the mailbox name.
+func (s *Session) mailboxFor(name string) (string, error) {
+	if s.addrPolicy == nil {
+		return name, nil
+	}
+	return s.addrPolicy.ExtractMailbox(name)
 }
 
 // Load the users mailbox
